@@ -786,6 +786,7 @@ struct World<'a> {
     sent_c2s: std::collections::BTreeMap<(usize, String), Vec<u8>>,
     swarm_off: [bool; 6],
     perfect: bool,
+    s2c_hostile: bool,
 }
 
 const SW_NET: usize = 0;
@@ -1250,7 +1251,7 @@ impl<'a> World<'a> {
         let mut drop = false;
         let mut dup = 0u64;
         let mut gap = 1000u64;
-        let mut fault = String::new();
+        let mut fault = if self.s2c_hostile { "srv-hostile".to_string() } else { String::new() };
         if self.faults_on() {
             let p = self.profile.clone();
             let off_net = self.swarm_off[SW_NET];
@@ -1322,7 +1323,7 @@ impl<'a> World<'a> {
                 let key = self.session_key();
                 if let Some(f) = apply_corruption(&mut bytes, &kv, &key) {
                     self.ledger.stats.fault(&f);
-                    fault = f;
+                    fault = if fault.is_empty() { f } else { format!("{}+{}", fault, f) };
                 }
             }
         }
@@ -1477,9 +1478,13 @@ impl<'a> World<'a> {
             }
         }
         let replies = self.server.on_datagram(&bytes, &spec);
+        // replies of the hostile-server family (over-long / non-UTF-8 strings, reason phrases around the limit) are
+        // marked as such in the ledger: like messages damaged in flight they are subject to the safety rules only
+        self.s2c_hostile = kv_has(&spec, "hostile") || kv_has(&spec, "reason");
         for (ri, r) in replies.into_iter().enumerate() {
             self.net_s2c(r.bytes, r.think_ns, format!("{}.r{}", n, ri));
         }
+        self.s2c_hostile = false;
     }
 
     // ----- calls into the real client --------------------------------------------------------
@@ -1755,6 +1760,10 @@ impl<'a> World<'a> {
             let first = k == 0;
             let off = self.swarm_off[SW_APP];
             let align_unit = self.cfg.rc_rm_rto().2.max(1);
+            let lifetime_mult = {
+                let (rc, rm, _) = self.cfg.rc_rm_rto();
+                ((1u64 << (rc.clamp(1, 40) - 1)) - 1 + rm as u64).min(100_000)
+            };
             let storm = self.cfg.storm;
             let v = self.src.decide(&format!("app#{}", k), |rng| {
                 let gap = if first {
@@ -1780,8 +1789,9 @@ impl<'a> World<'a> {
                 } else if rng.chance(p.p_align, 1000) {
                     // start this request a whole number of RTOs after the previous one, so that retransmission
                     // slots and deadlines of concurrent requests coincide (or miss each other by one nanosecond)
-                    let m = *rng.pick(&[1u64, 1, 2, 3, 4, 6, 7, 8, 15]);
-                    (align_unit * m + rng.range(0, 2)).saturating_sub(1)
+                    // ... or exactly one request lifetime after it (the instant at which it fails if nothing answers)
+                    let m = if rng.chance(1, 4) { lifetime_mult } else { *rng.pick(&[1u64, 1, 2, 3, 4, 6, 7, 8, 15]) };
+                    (align_unit.saturating_mul(m) + rng.range(0, 2)).saturating_sub(1)
                 } else {
                     rng.log_range(p.app_gap_ns.0, p.app_gap_ns.1)
                 };
@@ -2003,7 +2013,7 @@ impl<'a> World<'a> {
             }
         }
         let _ = main_steps;
-        self.ledger.stats.sim_ns = self.now;
+        self.ledger.stats.sim_ns = self.now as u128;
     }
 
     /// Probes issued once the run is quiescent (heap empty, faults stopped).
@@ -2187,6 +2197,7 @@ pub fn run(src: &mut Source, profile: &Profile, opts: &RunOpts) -> RunResult {
         sent_c2s: Default::default(),
         swarm_off,
         perfect,
+        s2c_hostile: false,
     };
     if w.client.is_some() {
         w.run();
